@@ -2,9 +2,9 @@ SPECIFICATION TSpec
 CONSTANTS
   Scenarios = {"local", "remote", "localfar", "contest", "claim", "success", "breach", "coop"}
   MaxCrashes = 99
-  F8Fixed = FALSE
+  F8Fixed = TRUE
   F9Fixed = FALSE
-  FccFixed = FALSE
+  FccFixed = TRUE
   CommitBeforeCheckpoint = FALSE
   EnvAtomic = FALSE
 INVARIANTS ConformLog ConformExt ResolvedOnlyWhenEmpty MarkedOnlyWhenResolved UpstreamConsistent VerdictInv
